@@ -36,6 +36,9 @@ type Env struct {
 	Vdrive  string
 	Race    string // vdrive built with -race (only when a check asks for it)
 	T0      time.Time
+	// Counters filled by generators that execute code themselves (candidate scans); merged into the
+	// coverage counters of the evidence.
+	Counters map[string]int
 }
 
 func (e *Env) Logf(format string, a ...any) {
@@ -188,7 +191,7 @@ func NewEnv(root, tier string, seed int64) (*Env, error) {
 	if err != nil {
 		return nil, err
 	}
-	env := &Env{Root: root, Tmp: tmp, Tier: tier, Seed: seed, Rand: rand.New(rand.NewSource(seed)), T0: time.Now()}
+	env := &Env{Root: root, Tmp: tmp, Tier: tier, Seed: seed, Rand: rand.New(rand.NewSource(seed)), T0: time.Now(), Counters: map[string]int{}}
 	env.SpecDir = filepath.Join(tmp, "spec")
 	os.MkdirAll(env.SpecDir, 0o755)
 	files, _ := filepath.Glob(filepath.Join(root, "spec", "*"))
